@@ -31,6 +31,9 @@ Section Diamond.
         econstructor; eauto.
   Qed.
 
+  Lemma gpath_app a n b : gpath a n b -> forall m c, gpath b m c -> gpath a (n + m) c.
+  Proof. induction 1 as [|s l t n u Hs Hp IH]; intros m c Hc; simpl; [exact Hc|]. econstructor; eauto. Qed.
+
   Theorem unique_terminal : forall m n s t u, gpath s n t -> gterminal t -> gpath s m u ->
     m <= n /\ (gterminal u -> m = n /\ u = t).
   Proof.
@@ -191,22 +194,31 @@ Section NetDiamond.
     - intros s0 l1 l2 a b Hne. apply net_diamond. exact Hne.
   Qed.
 
-  (* the executable scheduler only takes real steps *)
-  Lemma try_order_step (s : net) order t : try_order L M cap s order = Some t -> exists i, step L M cap s i t.
+  (* the executable scheduler only takes real steps (for any firing function) *)
+  Lemma try_order_with_step (f : net -> nat -> option net) (s : net) order t :
+    try_order_with L M f s order = Some t -> exists i, f s i = Some t.
   Proof.
     induction order as [|i r IH]; simpl; [discriminate|].
-    destruct (fire L M cap s i) eqn:E; [intros H; inversion H; subst; exists i; exact E|exact IH].
+    destruct (f s i) eqn:E; [intros H; inversion H; subst; exists i; exact E|exact IH].
   Qed.
 
-  Lemma run_sched_path fuel order : forall (s : net),
-    gpath net nat (step L M cap) s (snd (run_sched L M cap fuel order s)) (fst (run_sched L M cap fuel order s)).
+  Lemma run_sched_with_path (f : net -> nat -> option net) fuel order : forall (s : net),
+    gpath net nat (fun a i b => f a i = Some b) s (snd (run_sched_with L M f fuel order s)) (fst (run_sched_with L M f fuel order s)).
   Proof.
     induction fuel as [|k IH]; intros s; simpl; [constructor|].
-    destruct (try_order L M cap s order) as [t|] eqn:E; [|constructor].
-    destruct (try_order_step s order t E) as [i Hi].
-    specialize (IH t). destruct (run_sched L M cap k order t) as [u n]. simpl in *.
+    destruct (try_order_with L M f s order) as [t|] eqn:E; [|constructor].
+    destruct (try_order_with_step f s order t E) as [i Hi].
+    specialize (IH t). destruct (run_sched_with L M f k order t) as [u n]. simpl in *.
     econstructor; eauto.
   Qed.
+
+  Lemma run_sched_path fuel order (s : net) :
+    gpath net nat (step L M cap) s (snd (run_sched L M cap fuel order s)) (fst (run_sched L M cap fuel order s)).
+  Proof. exact (run_sched_with_path (fire L M cap) fuel order s). Qed.
+
+  Lemma srun_sched_path fuel order (s : net) :
+    gpath net nat (sstep L M) s (snd (srun_sched L M fuel order s)) (fst (srun_sched L M fuel order s)).
+  Proof. exact (run_sched_with_path (sfire L M) fuel order s). Qed.
 
   (* a state in which every program is empty is terminal *)
   Lemma all_done_terminal (s : net) : all_done L M s = true -> gterminal net nat (step L M cap) s.
@@ -228,5 +240,111 @@ Section NetDiamond.
     intros Hd m u Hp.
     destruct (kahn_unique s _ u _ m (run_sched_path fuel order s) (all_done_terminal _ Hd) Hp) as [Hle Hf].
     split; [exact Hle|]. intros Hu. destruct (Hf Hu) as [_ E]. exact E.
+  Qed.
+
+  (* ---------- synchronous (rendezvous) pipes ---------- *)
+  Lemma sstep_det (s : net) i t t' : sstep L M s i t -> sstep L M s i t' -> t = t'.
+  Proof. unfold sstep. intros H1 H2. rewrite H1 in H2. inversion H2. reflexivity. Qed.
+
+  Lemma nth_updp (ps : list (proc L M)) : forall i p k,
+    nth_error (updp L M ps i p) k = if Nat.eqb k i then match nth_error ps i with Some _ => Some p | None => None end else nth_error ps k.
+  Proof.
+    induction ps as [|x ps IH]; intros [|i] p [|k]; simpl; try reflexivity.
+    - destruct (Nat.eqb k i); reflexivity.
+    - apply IH.
+  Qed.
+
+  Lemma list_ext (a : list (proc L M)) : forall b, (forall k, nth_error a k = nth_error b k) -> a = b.
+  Proof.
+    induction a as [|x a IH]; intros [|y b] H.
+    - reflexivity.
+    - specialize (H 0). discriminate.
+    - specialize (H 0). discriminate.
+    - pose proof (H 0) as H0. simpl in H0. inversion H0. subst. f_equal. apply IH. intros k. exact (H (S k)).
+  Qed.
+
+  (* normal form of a looked-up, updated list; closes goals once all comparisons are decided *)
+  Ltac upd_solve :=
+    repeat rewrite nth_updp;
+    repeat match goal with
+           | |- context [Nat.eqb ?a ?b] => destruct (Nat.eqb_spec a b); subst
+           | H : nth_error ?l ?i = _ |- context [nth_error ?l ?i] => rewrite H
+           end;
+    try reflexivity; try congruence; try (exfalso; congruence).
+
+  Ltac simp_eqb :=
+    repeat (rewrite Nat.eqb_refl ||
+            match goal with
+            | H : ?a <> ?b |- context [Nat.eqb ?a ?b] => rewrite (proj2 (Nat.eqb_neq a b) H)
+            | H : ?a <> ?b |- context [Nat.eqb ?b ?a] => rewrite (proj2 (Nat.eqb_neq b a) (fun e => H (eq_sym e)))
+            end).
+
+  Ltac sync_finish :=
+    eexists; split; [reflexivity|]; f_equal; f_equal; apply list_ext; intros k; upd_solve.
+
+  Theorem sync_diamond (s : net) i1 i2 t1 t2 : i1 <> i2 -> sstep L M s i1 t1 -> sstep L M s i2 t2 ->
+    exists u, sstep L M t1 i2 u /\ sstep L M t2 i1 u.
+  Proof.
+    unfold sstep, sfire. intros Hne H1 H2.
+    destruct (nth_error (procs s) i1) as [p1|] eqn:E1; [|discriminate].
+    destruct (nth_error (procs s) i2) as [p2|] eqn:E2; [|discriminate].
+    destruct (prog p1) as [|a1 r1] eqn:P1; [discriminate|].
+    destruct (prog p2) as [|a2 r2] eqn:P2; [discriminate|].
+    destruct a1 as [f1|j1 g1|j1 h1]; [| |discriminate]; destruct a2 as [f2|j2 g2|j2 h2]; try discriminate.
+    - (* local, local *)
+      inv H1. inv H2. simpl.
+      repeat progress (rewrite ?nth_updp; simp_eqb; rewrite ?E1, ?E2, ?P1, ?P2; simpl).
+      sync_finish.
+    - (* local i1, send i2 -> j2 *)
+      destruct (Nat.eqb_spec i2 j2) as [|Nij2]; [discriminate|].
+      destruct (nth_error (procs s) j2) as [q2|] eqn:F2; [|discriminate].
+      destruct (prog q2) as [|[ | |k2 h2] rq2] eqn:Q2; try discriminate.
+      destruct (Nat.eqb_spec k2 i2) as [->|]; [|discriminate].
+      assert (N1 : j2 <> i1) by (intro; subst; rewrite F2 in E1; inversion E1; subst; rewrite Q2 in P1; discriminate).
+      inv H1. inv H2. simpl.
+      repeat progress (rewrite ?nth_updp; simp_eqb; rewrite ?E1, ?E2, ?F2, ?P1, ?P2, ?Q2; simpl).
+      sync_finish.
+    - (* send i1 -> j1, local i2 *)
+      destruct (Nat.eqb_spec i1 j1) as [|Nij1]; [discriminate|].
+      destruct (nth_error (procs s) j1) as [q1|] eqn:F1; [|discriminate].
+      destruct (prog q1) as [|[ | |k1 h1] rq1] eqn:Q1; try discriminate.
+      destruct (Nat.eqb_spec k1 i1) as [->|]; [|discriminate].
+      assert (N1 : j1 <> i2) by (intro; subst; rewrite F1 in E2; inversion E2; subst; rewrite Q1 in P2; discriminate).
+      inv H1. inv H2. simpl.
+      repeat progress (rewrite ?nth_updp; simp_eqb; rewrite ?E1, ?E2, ?F1, ?P1, ?P2, ?Q1; simpl).
+      sync_finish.
+    - (* send i1 -> j1, send i2 -> j2: four different processes *)
+      destruct (Nat.eqb_spec i1 j1) as [|Nij1]; [discriminate|].
+      destruct (Nat.eqb_spec i2 j2) as [|Nij2]; [discriminate|].
+      destruct (nth_error (procs s) j1) as [q1|] eqn:F1; [|discriminate].
+      destruct (nth_error (procs s) j2) as [q2|] eqn:F2; [|discriminate].
+      destruct (prog q1) as [|[ | |k1 h1] rq1] eqn:Q1; try discriminate.
+      destruct (prog q2) as [|[ | |k2 h2] rq2] eqn:Q2; try discriminate.
+      destruct (Nat.eqb_spec k1 i1) as [->|]; [|discriminate].
+      destruct (Nat.eqb_spec k2 i2) as [->|]; [|discriminate].
+      assert (N1 : j1 <> i2) by (intro; subst; rewrite F1 in E2; inversion E2; subst; rewrite Q1 in P2; discriminate).
+      assert (N2 : j2 <> i1) by (intro; subst; rewrite F2 in E1; inversion E1; subst; rewrite Q2 in P1; discriminate).
+      assert (N3 : j1 <> j2) by (intro; subst; rewrite F1 in F2; inversion F2; subst; rewrite Q1 in Q2; inversion Q2; auto).
+      inv H1. inv H2. simpl.
+      repeat progress (rewrite ?nth_updp; simp_eqb; rewrite ?E1, ?E2, ?F1, ?F2, ?P1, ?P2, ?Q1, ?Q2; simpl).
+      sync_finish.
+  Qed.
+
+  Theorem kahn_unique_sync (s t u : net) n m :
+    gpath net nat (sstep L M) s n t -> gterminal net nat (sstep L M) t -> gpath net nat (sstep L M) s m u ->
+    m <= n /\ (gterminal net nat (sstep L M) u -> m = n /\ u = t).
+  Proof.
+    apply (unique_terminal net nat (sstep L M)).
+    - intros s0 l a b. apply sstep_det.
+    - apply Nat.eq_dec.
+    - intros s0 l1 l2 a b Hne. apply sync_diamond. exact Hne.
+  Qed.
+
+  Lemma all_done_terminal_sync (s : net) : all_done L M s = true -> gterminal net nat (sstep L M) s.
+  Proof.
+    unfold all_done, gterminal, sstep, sfire. intros H i t.
+    destruct (nth_error (procs s) i) as [p|] eqn:E; [|discriminate].
+    rewrite forallb_forall in H. specialize (H p (nth_error_In _ _ E)).
+    destruct (prog p); [discriminate|discriminate].
   Qed.
 End NetDiamond.
